@@ -8,7 +8,7 @@ dst = '/verif/seeded/%s' % (pid + tag)
 os.makedirs(dst, exist_ok=True)
 for n in os.listdir(src):
     p = os.path.join(src, n)
-    if os.path.isfile(p) and os.path.getsize(p) < 400000:
+    if os.path.isfile(p) and os.path.getsize(p) < 400000 and open(p, "rb").read(4) != b"\x7fELF":
         shutil.copy(p, dst)
 json.dump({'property': pid, 'breaks': open(os.path.join(src, 'NOTES.md')).read().split('\n\n')[0][:600] if os.path.exists(os.path.join(src, 'NOTES.md')) else '',
            'needs_to_manifest': needs, 'what_i_ran': ran, 'caught_by': caught}, open(os.path.join(dst, 'meta.json'), 'w'), indent=1)
